@@ -524,7 +524,13 @@ class C19Run(qsrun.QsRun):
     def g_setinfo(self, sendable, live, deadc):
         st = qsrun.QsRun.g_setinfo(self, sendable, live, deadc)
         rng = self.rng
-        st[3]["info"] = {"status": rng.choice(["fetching", "parsing", "rendering", "layout"]), "progress": rng.randrange(100)}
+        st[3]["info"] = rng.choice([
+            {"status": rng.choice(["fetching", "parsing", "rendering", "layout"]), "progress": rng.randrange(100)},
+            {"progress": rng.randrange(100)},  # progress without a status text
+            {"status": "", "progress": rng.randrange(100)},
+            {"article": "Some article", "progress": rng.randrange(100)},
+            {"status": rng.choice(["rendering", "layout"])},
+        ])
         return st
 
     def g_jump(self, sendable, live, deadc):
